@@ -148,6 +148,35 @@ SEEDS = {
            "dispatch of such a handler with matching arguments: one heap allocation; the no_std staticlib no longer links"),
  "C14-E": ("microscpi-macros tree.rs: long and short form share one node, the short form added with or_insert",
            "two declarations of one kind that collide only through the short form of the later one (MEAS then MEASure; SYSTem / SYSTolic): compiles, later declaration shadowed"),
+ # round 5: changes to the code written by the round-4 repairs (head dc97b0e)
+ "C02-F": ("parser.rs compound_command_program_header: `let mut node = if root_command.is_some() { root } else { header }` - the lookup starts at the root but the returned path is not reset (round 5; same defect as D8)",
+           "a unit that moves the path, then an absolute unit of a single mnemonic, then a relative unit whose mnemonic exists below the old path"),
+ "C02-G": ("interface.rs Scanner::is_terminator, Length state: `length == 0` tested first, so a length field with a leading zero (#3010) is taken for an empty block",
+           "a faulty or over-long message with a block whose multi-digit length field starts with 0 and whose data hold a newline / quote: block bytes run as commands or the following messages are swallowed"),
+ "C05-F": ("parser.rs arbitrary_program_data: 'data complete?' compares the slice that still contains the length digits (i2.len() < count), then split_at panics",
+           "block data short by 1..=number-of-length-digits bytes: run(\"DATA #15abcd\"), or through process a newline inside the block near its end"),
+ "C05-G": ("interface.rs is_complete_message: `let Some(call_header) = call.header else { continue }` skips `input = remaining` for common commands: endless loop",
+           "through process: a message with a defined common command followed by ';' (*RST;*IDN?)"),
+ "C06-F": ("interface.rs Scanner Length state tests `length == 0` first (same idea as C02-G)",
+           "a parse-level fault plus a block with a leading-zero length field whose data leave the scanner in a non-plain state (#205it's!)"),
+ "C06-G": ("interface.rs run(): header update / reset folded into the Ok arm of the match on execute(): an execution-time fault no longer moves or resets the path",
+           "execution-time fault on a compound-header unit followed by a relative unit, or as last unit of a message followed by another message in the same run buffer"),
+ "C07-F": ("interface.rs Scanner Length arm `(_, 0) => Plain` (same idea as C02-G)",
+           "faulty or over-long message with a leading-zero block length and a quote / newline in the data; process differs from run per message"),
+ "C07-G": ("interface.rs process(): the arm that ends discarding compacts the buffer itself and `continue`s: bytes behind the terminator are kept but not scanned for newlines",
+           "an over-long message whose terminator arrives in the same read as the terminator of the next message: depends on the split into reads"),
+ "C08-F": ("interface.rs process(): fast path skips is_complete_message when cmd_buf[read_offset..terminator_pos] holds no quote or '#' (wrong slice: the opening quote may lie before read_offset)",
+           "multi-unit message with a payload newline where the quote / '#' arrived in an earlier read than the newline, or a payload with two newlines"),
+ "C08-G": ("interface.rs Scanner Length state tests `length == 0` first (same idea as C02-G)",
+           "leading-zero length field, newline in the block data, message faulty at or before the block or longer than the buffer"),
+ "C10-F": ("interface.rs Scanner Length state tests `length == 0` first (same idea as C02-G)",
+           "FOO #201\"\\n*IDN?\\n: the quote in the block data opens a phantom string, the query is never answered; or block data answered as a message of its own"),
+ "C10-G": ("interface.rs process(): `if let Some(mut scanner) = discarding` - Scanner is Copy, the scanner advances on a copy and the stored state stays that of the overflow",
+           "an over-long message discarded over at least two reads with a lexical state change (quote opens / closes, block count-down) in a non-final read"),
+ "C12-F": ("parser.rs arbitrary_program_data: length check (Incomplete) moved in front of the digits-only check (D17 half undone)",
+           "a length field of two or more digits that can never become valid and fewer than that many bytes before the end of input: ARG:ARB #3a\\n is Incomplete"),
+ "C12-G": ("interface.rs process(): `if let Some(mut scanner) = discarding` (same as C10-G)",
+           "over-long message containing a string or block whose remainder arrives in two or more reads"),
 }
 
 
